@@ -45,4 +45,108 @@ theorem sp_interior_withIdx {β : Type} (d : β) (n : Nat) (l : List β) (hlen :
   rw [List.mem_range'_1] at hi
   exact sp_withIdx_getD d l i (by omega)
 
+/-! ### sums, harmonic numbers, theta estimators -/
+
+open Sfs.Spec
+variable {α : Type} [Field α] [LinearOrder α] [IsStrictOrderedRing α]
+
+theorem sp_sum_map_div {β : Type} {K : Type} [DivisionRing K] (l : List β) (f : β → K) (c : K) :
+    (l.map (fun i => f i / c)).sum = (l.map f).sum / c := by
+  induction l with
+  | nil => simp
+  | cons a l ih => simp only [List.map_cons, List.sum_cons, ih, add_div]
+
+theorem sp_harmonic_eq {K : Type} [Field K] (n : Nat) : harmonic (α := K) n = aN n := by
+  unfold harmonic harmonicP aN sumOver
+  simp only [pow_one]
+
+theorem sp_harmonicP_two {K : Type} [Field K] (n : Nat) : harmonicP (α := K) n 2 = bN n := by
+  unfold harmonicP bN sumOver
+  simp only [pow_two, Nat.cast_mul]
+
+theorem sp_aN_pos (n : Nat) (hn : 2 ≤ n) : 0 < aN (α := α) n := by
+  unfold aN sumOver
+  rw [sumList_eq_sum]
+  apply List.sum_pos
+  · intro y hy
+    rw [List.mem_map] at hy
+    obtain ⟨i, hi, rfl⟩ := hy
+    rw [List.mem_range'_1] at hi
+    have : (0 : α) < ((i : Nat) : α) := by exact_mod_cast hi.1
+    positivity
+  · intro h
+    have := congrArg List.length h
+    simp at this
+    omega
+
+theorem sp_segregating {K : Type} [Field K] (n : Nat) (x : List K) (hlen : x.length = n + 1) :
+    segregating x = pubS n (fun i => x.getD i 0) := by
+  unfold segregating pubS sumOver
+  rw [sp_interior_eq 0 n x hlen]
+
+theorem sp_binom2 (n : Nat) : binom2 n = n * (n - 1) / 2 := by
+  unfold binom2
+  split
+  · have : n = 0 ∨ n = 1 := by omega
+    rcases this with rfl | rfl <;> rfl
+  · rfl
+
+theorem sp_statTheta {K : Type} [Field K] (n : Nat) (x : List K) (hlen : x.length = n + 1) :
+    statTheta x = pubThetaW n (fun i => x.getD i 0) := by
+  unfold statTheta thetaEstimate pubThetaW pubS sumOver wattersonWeight
+  rw [sp_interior_withIdx 0 n x hlen]
+  simp only [hlen, Nat.add_sub_cancel, List.map_map, sumList_eq_sum, sp_harmonic_eq]
+  rw [← sp_sum_map_div]
+  congr 1
+  apply List.map_congr_left
+  intro i _
+  simp only [Function.comp]
+  ring
+
+theorem sp_statPi {K : Type} [Field K] (n : Nat) (x : List K) (hlen : x.length = n + 1) :
+    statPi x = pubPi n (fun i => x.getD i 0) := by
+  unfold statPi thetaEstimate pubPi sumOver tajimaWeight
+  rw [sp_interior_withIdx 0 n x hlen]
+  simp only [hlen, Nat.add_sub_cancel, List.map_map, sumList_eq_sum, sp_binom2]
+  rw [← sp_sum_map_div]
+  congr 1
+  apply List.map_congr_left
+  intro i _
+  simp only [Function.comp]
+  ring
+
+/-! ### the D statistics -/
+
+theorem sp_dTajima {K : Type} [Field K] (n : Nat) (x : List K) (hlen : x.length = n + 1) :
+    dTajima x = pubTajimaD n (fun i => x.getD i 0) := by
+  unfold dTajima pubTajimaD pubTajimaVar
+  simp only [hlen, Nat.add_sub_cancel, sp_harmonic_eq, sp_harmonicP_two, sp_statPi n x hlen, sp_statTheta n x hlen,
+    sp_segregating n x hlen, pow_two]
+
+theorem sp_fuLi_c {K : Type} [Field K] (n : Nat) (a : K) :
+    (((2 * n : Nat) : K) * a - ((4 * (n - 1) : Nat) : K)) / ((((n - 1) * (n - 2) : Nat)) : K) =
+      (((2 : Nat) : K) * (((n : Nat) : K) * a - ((2 * (n - 1) : Nat) : K))) / ((((n - 1) * (n - 2) : Nat)) : K) := by
+  congr 1
+  have h4 : ((4 * (n - 1) : Nat) : K) = 2 * ((2 * (n - 1) : Nat) : K) := by
+    rw [show 4 * (n - 1) = 2 * (2 * (n - 1)) by omega, Nat.cast_mul (2 : Nat)]
+    rfl
+  rw [h4, Nat.cast_mul 2 n]
+  simp only [Nat.cast_ofNat]
+  ring
+
+theorem sp_dFuLi (n : Nat) (hn : 3 ≤ n) (x : List α) (hlen : x.length = n + 1) :
+    ∃ p, dFuLi x = some p ∧ p.num = (pubFuLiD n (fun i => x.getD i 0)).num ∧
+      p.var = (pubFuLiD n (fun i => x.getD i 0)).var := by
+  have h1 : 1 < x.length := by omega
+  have hx : thetaFuLi x = some (x.getD 1 0) := by
+    unfold thetaFuLi
+    simp [List.getD_eq_getElem?_getD, List.getElem?_eq_getElem h1]
+  have ha : aN (α := α) n ≠ 0 := ne_of_gt (sp_aN_pos n (by omega))
+  unfold dFuLi
+  rw [hx]
+  refine ⟨_, rfl, ?_, ?_⟩
+  · simp only [pubFuLiD, sp_statTheta n x hlen, pubThetaW, sp_harmonic_eq, hlen, Nat.add_sub_cancel]
+    field_simp
+  · simp only [pubFuLiD, sp_harmonic_eq, sp_harmonicP_two, sp_segregating n x hlen, hlen, Nat.add_sub_cancel, sp_fuLi_c]
+
 end Sfs
